@@ -112,7 +112,12 @@ func showPairs(m map[string]pair) string {
 
 var maskFailures int
 
-func runMasks(sc MaskScenario) *verdict {
+type maskResult struct {
+	views    []map[string]pair
+	contents map[string]pair
+}
+
+func runMasks(sc MaskScenario) (*verdict, *maskResult) {
 	ctx, cancel := context.WithCancel(context.Background())
 	defer cancel()
 	var coll *resource.Collection
@@ -226,7 +231,7 @@ func runMasks(sc MaskScenario) *verdict {
 			case <-c.marker:
 			case <-time.After(limit):
 				maskFailures++
-				return &verdict{"C03/coll/masks-single-writer/sentinel-not-delivered", fmt.Sprintf("subscriber %d (%+v) never received the sentinel", i, sc.Subs[i]), "sentinel", "none"}
+				return &verdict{"C03/coll/masks-single-writer/sentinel-not-delivered", fmt.Sprintf("subscriber %d (%+v) never received the sentinel", i, sc.Subs[i]), "sentinel", "none"}, nil
 			}
 			c.mu.Lock()
 			ok = showPairs(c.view) == showPairs(want)
@@ -251,10 +256,128 @@ func runMasks(sc MaskScenario) *verdict {
 			defer c.mu.Unlock()
 			return &verdict{fmt.Sprintf("C03/%s/masks-single-writer/stale-view", sc.Res),
 				fmt.Sprintf("single writer, %d subscribers with different read masks: subscriber %d (%+v) ends with a view that is not the projection of Get/List under its own mask", len(sc.Subs), i, sc.Subs[i]),
-				"view = " + showPairs(want), "view = " + showPairs(c.view) + " from events " + strings.Join(c.events, ";")}
+				"view = " + showPairs(want), "view = " + showPairs(c.view) + " from events " + strings.Join(c.events, ";")}, nil
 		}
 	}
-	return nil
+	mr := &maskResult{contents: contents}
+	for _, c := range cons {
+		c.mu.Lock()
+		v := map[string]pair{}
+		for k, p := range c.view {
+			v[k] = p
+		}
+		c.mu.Unlock()
+		mr.views = append(mr.views, v)
+	}
+	return nil, mr
+}
+
+func showPairsDrv(m map[string]pair) string {
+	var ids []string
+	for id := range m {
+		ids = append(ids, id)
+	}
+	sort.Strings(ids)
+	var parts []string
+	for _, id := range ids {
+		if m[id].T == 0 {
+			parts = append(parts, fmt.Sprintf("%s=%d", id, m[id].L))
+		} else {
+			parts = append(parts, fmt.Sprintf("%s=%d.%d", id, m[id].L, m[id].T))
+		}
+	}
+	return strings.Join(parts, ",")
+}
+
+func maskLetter(m []string) string {
+	switch {
+	case m == nil:
+		return "n"
+	case len(m) == 2:
+		return "b"
+	case m[0] == "level_percent":
+		return "l"
+	}
+	return "t"
+}
+
+// driverLine: the same scenario as a schedule of the model (single writer, free-running consumers)
+func (sc MaskScenario) driverLine() string {
+	var init []string
+	var ids []string
+	for k := range sc.Init {
+		ids = append(ids, k)
+	}
+	sort.Strings(ids)
+	for _, k := range ids {
+		init = append(init, fmt.Sprintf("%s:%d.%d", k, sc.Init[k], sc.Init[k]+1))
+	}
+	is := strings.Join(init, ",")
+	if is == "" {
+		is = "-"
+	}
+	var ops []string
+	for _, o := range sc.Ops {
+		if o.K == "d" {
+			ops = append(ops, fmt.Sprintf("d/%d", o.ID))
+		} else {
+			ops = append(ops, fmt.Sprintf("u/%d/w%d.%d", o.ID, o.L, o.T))
+		}
+	}
+	var subs []string
+	for _, s := range sc.Subs {
+		subs = append(subs, "0"+b01(!s.BP)+maskLetter(s.Mask))
+	}
+	var sched []string
+	done := make([]bool, len(sc.Subs))
+	for i, s := range sc.Subs {
+		if s.Late == 0 {
+			sched = append(sched, "s"+strconv.Itoa(i))
+			done[i] = true
+		}
+	}
+	for n := range sc.Ops {
+		sched = append(sched, "c0", "n0")
+		for range sc.Subs {
+			sched = append(sched, "d0", "R")
+		}
+		for i, s := range sc.Subs {
+			if !done[i] && s.Late == n+1 {
+				sched = append(sched, "s"+strconv.Itoa(i))
+				done[i] = true
+			}
+		}
+	}
+	for i := range sc.Subs {
+		if !done[i] {
+			sched = append(sched, "s"+strconv.Itoa(i))
+		}
+	}
+	return fmt.Sprintf("run %s %s %s %s", is, strings.Join(ops, ";"), strings.Join(subs, ","), strings.Join(sched, ","))
+}
+
+// stripModel keeps store and per-subscriber state:view of a model answer
+func stripModel(ans string, withView func(i int) bool) string {
+	var out []string
+	for _, p := range strings.Split(ans, "|") {
+		switch {
+		case strings.HasPrefix(p, "store="):
+			out = append(out, p)
+		case strings.HasPrefix(p, "S"):
+			eq := strings.IndexByte(p, '=')
+			i, _ := strconv.Atoi(p[1:eq])
+			f := strings.SplitN(p[eq+1:], ":", 3)
+			if len(f) != 3 {
+				return ans
+			}
+			if withView(i) {
+				out = append(out, p[:eq+1]+f[0]+":"+f[1])
+			} else {
+				out = append(out, p[:eq+1]+f[0]+":?")
+			}
+		}
+	}
+	return strings.Join(out, "|")
 }
 
 var maskChoices = [][]string{nil, {"level_percent"}, {"target_level_percent"}, {"level_percent", "target_level_percent"}}
@@ -319,6 +442,11 @@ func masksMonitor(f lib.Flags, res *lib.Result, rng *rand.Rand) {
 	for i := 0; i < f.N(200, 3000); i++ {
 		all = append(all, genMasks(rng))
 	}
+	tie := res.Tie("masks-model", "K1",
+		"the read-mask scenarios as schedules of the model (single writer; every delivery immediately received; subscriber i carries its mask as a projection): store and every subscriber's masked view at quiescence vs run(model); non-trivial = subscribers with different masks")
+	var lines, codes []string
+	var inputs []any
+	var nontriv []bool
 	for _, sc := range all {
 		distinct := false
 		for i := range sc.Subs {
@@ -328,9 +456,35 @@ func masksMonitor(f lib.Flags, res *lib.Result, rng *rand.Rand) {
 		}
 		mon.Eval(sc.key(), distinct, nil)
 		mon.Count(sc.Res)
-		if v := runMasks(sc); v != nil {
-			mon.Violate(v.sig, v.what, map[string]any{"mode": "masks", "res": sc.Res, "init": sc.Init, "ops": sc.Ops, "subs": sc.Subs}, v.expected, v.observed)
+		in := map[string]any{"mode": "masks", "res": sc.Res, "init": sc.Init, "ops": sc.Ops, "subs": sc.Subs}
+		v, mr := runMasks(sc)
+		if v != nil {
+			mon.Violate(v.sig, v.what, in, v.expected, v.observed)
 		}
+		if mr != nil {
+			code := "store=" + showPairsDrv(mr.contents)
+			for i, vw := range mr.views {
+				code += fmt.Sprintf("|S%d=live:%s", i, showPairsDrv(vw))
+			}
+			lines = append(lines, sc.driverLine())
+			codes = append(codes, code)
+			inputs = append(inputs, in)
+			nontriv = append(nontriv, distinct)
+		}
+	}
+	drv, err := lib.StartDriver(f.Driver)
+	if err != nil {
+		tie.Fail(err)
+		return
+	}
+	answers, err := drv.Batch(lines)
+	drv.Close()
+	if err != nil {
+		tie.Fail(err)
+		return
+	}
+	for i := range lines {
+		tie.Record(lines[i], nontriv[i], inputs[i], stripModel(answers[i], func(int) bool { return true }), codes[i])
 	}
 }
 
@@ -348,7 +502,7 @@ type DupScenario struct {
 
 func (sc DupScenario) key() string { return fmt.Sprintf("%+v", sc) }
 
-func runDup(ctl *k4.Controller, sc DupScenario) *verdict {
+func runDup(ctl *k4.Controller, sc DupScenario) (*verdict, string) {
 	init := map[string]int64{}
 	if sc.Present {
 		init["0"] = 1
@@ -369,7 +523,7 @@ func runDup(ctl *k4.Controller, sc DupScenario) *verdict {
 	// commit of the first write; parked before Bus.Send
 	ctl.StepWait(th)
 	if th.Status != k4.Parked || (th.Point != ptUpdSend && th.Point != ptValSend) {
-		return &verdict{"C03/" + sc.Res + "/lossy-seed-dup/harness", "writer did not park before its publication", ptUpdSend, th.Point}
+		return &verdict{"C03/" + sc.Res + "/lossy-seed-dup/harness", "writer did not park before its publication", ptUpdSend, th.Point}, ""
 	}
 	// the lossy subscriber: snapshot (includes the committed change) + listen; its consumer is paused
 	opts := []resource.ReadOption{resource.WithBackpressure(false)}
@@ -422,12 +576,13 @@ func runDup(ctl *k4.Controller, sc DupScenario) *verdict {
 					events = append(events, fmt.Sprintf("%s=%d", id, v))
 				}
 			case <-deadline:
-				return &verdict{"C03/coll/lossy-seed-dup/sentinel-not-delivered", "the marker written after the writes was never received", "marker", strings.Join(events, ";")}
+				return &verdict{"C03/coll/lossy-seed-dup/sentinel-not-delivered", "the marker written after the writes was never received", "marker", strings.Join(events, ";")}, ""
 			}
 		}
 	}
+	code := "store=" + showView(contents) + "|S0=live:" + showView(view)
 	if showView(view) == showView(contents) {
-		return nil
+		return nil, code
 	}
 	class := "other"
 	if _, inStore := contents["0"]; !inStore {
@@ -437,7 +592,26 @@ func runDup(ctl *k4.Controller, sc DupScenario) *verdict {
 	}
 	return &verdict{fmt.Sprintf("C03/%s/lossy-seed-dup/stale-view/%s", sc.Res, class),
 		fmt.Sprintf("single writer; a lossy subscriber was seeded with a change published only afterwards (present before: %v), then writes %v while its consumer was paused: the drained view differs from the store", sc.Present, sc.Rest),
-		"view = " + showView(contents), "view = " + showView(view) + " from events " + strings.Join(events, ";")}
+		"view = " + showView(contents), "view = " + showView(view) + " from events " + strings.Join(events, ";")}, code
+}
+
+func (sc DupScenario) driverLine() string {
+	init := map[string]int64{}
+	if sc.Present {
+		init["0"] = 1
+	}
+	if sc.Ballast && sc.Res == "coll" {
+		init["5"] = 7
+	}
+	ops := append([]WOp{{K: "s", ID: 0, V: 10}}, sc.Rest...)
+	base := Scenario{Res: sc.Res, Init: init, Writers: [][]WOp{ops}}
+	sched := []string{"c0", "s0", "n0", "d0"}
+	for range sc.Rest {
+		sched = append(sched, "c0", "n0", "d0")
+	}
+	sched = append(sched, "R")
+	f := strings.Fields(base.driverLine(nil))
+	return fmt.Sprintf("run %s %s 01n %s", f[1], f[2], strings.Join(sched, ","))
 }
 
 func dupScenarios() []DupScenario {
@@ -479,11 +653,38 @@ func dupMonitor(f lib.Flags, res *lib.Result) {
 		"single writer parked at *.beforeSend after committing a write of id 0 (an ADD or an UPDATE); a LOSSY subscriber takes its snapshot and listens; the publication (a duplicate of the seed) is released, then every sequence over {write, delete} of id 0 up to length 3 runs while the consumer is paused; it then drains to a marker; view vs Get/List")
 	ctl := k4.New(ptUpdSend, ptValSend, ptListener)
 	defer ctl.Close()
+	tie := res.Tie("k4-lossy-seed-dup", "K4",
+		"the same scenarios as schedules of the model (commit, subscribe lossy, snapshot, deliver, further writes, consumer drains last): store and drained view vs run(model) — the model reproduces the stale view of the recorded finding; non-trivial = writes follow the duplicate")
+	var lines, codes []string
+	var inputs []any
+	var nontriv []bool
 	for _, sc := range dupScenarios() {
 		mon.Eval(sc.key(), len(sc.Rest) > 0, nil)
 		mon.Count(sc.Res)
-		if v := runDup(ctl, sc); v != nil {
-			mon.Violate(v.sig, v.what, map[string]any{"mode": "lossy-seed-dup", "res": sc.Res, "present": sc.Present, "ballast": sc.Ballast, "rest": sc.Rest}, v.expected, v.observed)
+		in := map[string]any{"mode": "lossy-seed-dup", "res": sc.Res, "present": sc.Present, "ballast": sc.Ballast, "rest": sc.Rest}
+		v, code := runDup(ctl, sc)
+		if v != nil {
+			mon.Violate(v.sig, v.what, in, v.expected, v.observed)
 		}
+		if code != "" {
+			lines = append(lines, sc.driverLine())
+			codes = append(codes, code)
+			inputs = append(inputs, in)
+			nontriv = append(nontriv, len(sc.Rest) > 0)
+		}
+	}
+	drv, err := lib.StartDriver(f.Driver)
+	if err != nil {
+		tie.Fail(err)
+		return
+	}
+	answers, err := drv.Batch(lines)
+	drv.Close()
+	if err != nil {
+		tie.Fail(err)
+		return
+	}
+	for i := range lines {
+		tie.Record(lines[i], nontriv[i], inputs[i], stripModel(answers[i], func(int) bool { return true }), codes[i])
 	}
 }
